@@ -291,6 +291,16 @@ def check_spinner_scenarios(ctx):
             problems.add(f"without SIGCHLD run() {_show((r.kind, r.value))} and re-installs {restored}")
     ctx.check("R-RESTORE-SIGNALS", "a signal the platform lacks is skipped, the others are still saved and restored", run_f, bool(res) and not problems, "; ".join(sorted(problems)),
               examined=len(res), construct=f"{Q}::missing-signal")
+    # a signal whose handler is SIG_DFL (the integer 0, falsy) is restored like any other
+    _, res = sm.run_spinner(ctx, "value", [["start"]], default_handlers=("SIGTERM",))
+    problems = set()
+    for r in res:
+        restored = sorted(repr(e[1]) for e in r.state.get("ev.calls", ()) if e[0] == "signal.signal")
+        want = sorted(repr((("const", n_), ("const", 0) if k_ == "SIGTERM" else ("handler-of", ("const", n_)))) for k_, n_ in sm.SIGNUMS.items())
+        if restored != want or (r.kind, r.value) != ("val", sm.USER_VALUE):
+            problems.add(f"with SIGTERM at SIG_DFL before the call run() {_show((r.kind, r.value))} and re-installs {restored}; expected every preserved signal with the handler it had, SIG_DFL included")
+    ctx.check("R-RESTORE-SIGNALS", "a handler that is SIG_DFL (falsy) is saved and restored like any other", run_f, bool(res) and not problems, "; ".join(sorted(problems)),
+              examined=len(res), construct=f"{Q}::default-handler")
     # a clean reactor leaves no junk
     _, res = sm.run_spinner(ctx, "value", [["start"]], leftovers=False)
     ok = bool(res) and all(r.state.get("self._junk") == ("tuple",) and (r.kind, r.value) == ("val", sm.USER_VALUE) for r in res)
